@@ -16,6 +16,7 @@ import (
 	"strings"
 	"sync"
 	"sync/atomic"
+	"time"
 
 	remoteexecution "github.com/bazelbuild/remote-apis/build/bazel/remote/execution/v2"
 	"github.com/buildbarn/bb-storage/pkg/blobstore"
@@ -23,7 +24,9 @@ import (
 	"github.com/buildbarn/bb-storage/pkg/blobstore/local"
 	"github.com/buildbarn/bb-storage/pkg/blobstore/slicing"
 	"github.com/buildbarn/bb-storage/pkg/capabilities"
+	"github.com/buildbarn/bb-storage/pkg/clock"
 	"github.com/buildbarn/bb-storage/pkg/digest"
+	"github.com/buildbarn/bb-storage/pkg/eviction"
 	"github.com/buildbarn/bb-storage/pkg/util"
 	"github.com/prometheus/client_golang/prometheus"
 	dto "github.com/prometheus/client_model/go"
@@ -65,6 +68,20 @@ func (d *stDevice) WriteAt(p []byte, off int64) (int, error) {
 }
 func (d *stDevice) Sync() error  { return nil }
 func (d *stDevice) Close() error { return nil }
+
+// stTickClock: every reading is one second later than the previous one.
+type stTickClock struct{ t int64 }
+
+func (c *stTickClock) Now() time.Time {
+	return time.Unix(1700000000+atomic.AddInt64(&c.t, 1), 0)
+}
+func (c *stTickClock) NewContextWithTimeout(parent context.Context, timeout time.Duration) (context.Context, context.CancelFunc) {
+	panic("stTickClock: not used")
+}
+func (c *stTickClock) NewTimer(d time.Duration) (clock.Timer, <-chan time.Time) { panic("stTickClock: not used") }
+func (c *stTickClock) NewTicker(d time.Duration) (clock.Ticker, <-chan time.Time) {
+	panic("stTickClock: not used")
+}
 
 // ---------- read buffer factories ----------
 
@@ -442,7 +459,13 @@ func newStStore(cfg, objs, anc Sx) (*stStore, bool) {
 		st.dev = &stDevice{data: make([]byte, bs*nblocks)}
 		var f blobstore.ReadBufferFactory = stRawFactory{}
 		if validate {
-			f = stCountingCASFactory{negs: &st.negs}
+			// wired as new_blob_access.go wires a store with data_integrity_validation_cache: the
+			// CAS factory behind the validation-caching decorator.  The cache's duration is zero
+			// on a clock that advances with every reading, so no verdict is ever reused (a cached
+			// positive verdict would skip validation, which the model does not describe); what is
+			// exercised is the decorator's forwarding of the integrity callback.
+			f = blobstore.NewValidationCachingReadBufferFactory(stCountingCASFactory{negs: &st.negs},
+				digest.NewExistenceCache(&stTickClock{}, digest.KeyWithInstance, 16, 0, eviction.NewLRUSet[string]()))
 		}
 		allocator = local.NewBlockDeviceBackedBlockAllocator(st.dev, f, sector, int64(bs/sector), nblocks, st.label)
 		c := stCounters(st.label)
